@@ -64,6 +64,11 @@ func VxC25() {
 		vxAssert(got == want, "fmt.Printf/Println next to local variables named printf/echo print something else")
 		vxAssert(X_ShadowErrorf(a) == R_ShadowErrorf(a), "fmt.Errorf next to a local variable named errorf behaves differently")
 		vxAssert(X_ShadowSprint(a) == R_ShadowSprint(a), "fmt.Sprint next to a local function named sprint behaves differently")
+	case 11:
+		vxAssert(X_LambdaBareReturn(a) == R_LambdaBareReturn(a), "a function literal consisting of a bare return behaves differently after conversion")
+		vxAssert(X_LambdaVariadic(a) == R_LambdaVariadic(a), "a variadic function literal behaves differently after conversion")
+		n := vxIntRange(0, 12)
+		vxAssert(X_ForPost(n) == R_ForPost(n), "an fmt call in the post statement of a for loop behaves differently after conversion")
 	case 10:
 		vxStdoutBegin()
 		main()
